@@ -209,6 +209,35 @@ Definition m_step (cfg : config) (st : mstate) (o : mop) : mstate * tok :=
       end
   end.
 
+(* ---------- the keyword arguments of the two search entry points as the caller wrote them (wave 4) ---------- *)
+(** None = the argument was omitted; the defaults of the signatures -- find_common_subgraph(G1, G2, *, mcs=False, mcs_mol=False),
+    find_rc_mapping(rc1, rc2, *, side="op", mcs=True, mcs_mol=False, component=True) -- and the dispatch order of the two bodies
+    (find_common_subgraph: mcs_mol first, then mcs is ignored; find_rc_mapping: component first, then mcs_mol is ignored) are
+    applied by the model.  [choices] / [choice]: VF2's first results (see MFindAuto / MFindMol), used only by the modes that need them. *)
+Definition dflt {X} (d : X) (o : option X) : X := match o with Some x => x | None => d end.
+Record fcs_kw := { fk_mcs : option bool; fk_mol : option bool }.
+Record rc_kw := { rk_side : option side; rk_mcs : option bool; rk_mol : option bool; rk_component : option bool }.
+
+Inductive mcall :=
+| CFind (g1 g2 : rgraph) (kw : fcs_kw) (choices : list mapping) (choice : mapping)
+| CRc (x : rc_input) (kw : rc_kw) (choice : mapping)
+| CReads (ds : list dir).
+
+Definition resolve (auto : bool) (c : mcall) : mop :=
+  match c with
+  | CFind g1 g2 kw choices choice =>
+      if dflt false (fk_mol kw) then MFindMol g1 g2 choice
+      else if auto then MFindAuto g1 g2 (dflt false (fk_mcs kw)) choices
+      else MFind g1 g2 (dflt false (fk_mcs kw))
+  | CRc x kw choice =>
+      let sd := dflt SOp (rk_side kw) in
+      let mcs := dflt true (rk_mcs kw) in
+      if dflt true (rk_component kw) then MRc x sd mcs true
+      else if dflt false (rk_mol kw) then MRcMol x sd choice
+      else MRc x sd mcs false
+  | CReads ds => MReads ds
+  end.
+
 (** the cache after a sequence of calls on ONE object (what the history theorems speak about; [h_play] below threads the same
     [m_step] through several objects) *)
 Fixpoint m_run (cfg : config) (st : mstate) (ops : list mop) : mstate :=
@@ -223,6 +252,7 @@ Definition is_read (o : mop) : bool := match o with MReads _ => true | _ => fals
 Inductive hop :=
 | HNew (ci : nat)                       (* a new matcher object of configuration ci replaces the old one *)
 | HCall (ci : nat) (o : mop)
+| HCallKw (ci : nat) (c : mcall)        (* a call as the caller wrote it; defaults and dispatch resolved by the model *)
 | HExternal (ci : nat) (t : tok).       (* a search in a VF2-order dependent mode: answer computed elsewhere, state not tracked *)
 
 Fixpoint set_nth {X} (i : nat) (x : X) (l : list X) : list X :=
@@ -241,6 +271,10 @@ Fixpoint h_play (cfgs : list config) (sts : list mstate) (ops : list hop) : list
   | HNew ci :: r => h_play cfgs (set_nth ci s_init sts) r
   | HCall ci o :: r =>
       let '(st', t) := m_step (nth ci cfgs dummy_config) (nth ci sts s_init) o in
+      L [t; tbool true] :: h_play cfgs (set_nth ci st' sts) r
+  | HCallKw ci c :: r =>
+      let cfg := nth ci cfgs dummy_config in
+      let '(st', t) := m_step cfg (nth ci sts s_init) (resolve (c_auto cfg) c) in
       L [t; tbool true] :: h_play cfgs (set_nth ci st' sts) r
   | HExternal ci t :: r => L [t; tbool true] :: h_play cfgs (set_nth ci s_init sts) r
   end.
